@@ -409,8 +409,8 @@ impl SwiftField for Field32 {
             Some("B") => Ok(Field32::B(Field32B::parse(value)?)),
             Some("C") => Ok(Field32::C(Field32C::parse(value)?)),
             Some("D") => Ok(Field32::D(Field32D::parse(value)?)),
-            None | Some("") => {
-                // No option letter given: fall back to default parse behavior
+            None => {
+                // No tag information at all (direct API use): fall back to default parse behavior
                 Self::parse(value)
             }
             Some(other) => Err(ParseError::InvalidFormat {
@@ -479,8 +479,8 @@ impl SwiftField for Field32AB {
                 let field = Field32B::parse(value)?;
                 Ok(Field32AB::B(field))
             }
-            None | Some("") => {
-                // No option letter given: fall back to default parse behavior
+            None => {
+                // No tag information at all (direct API use): fall back to default parse behavior
                 Self::parse(value)
             }
             Some(other) => Err(ParseError::InvalidFormat {
@@ -549,8 +549,8 @@ impl SwiftField for Field32AmountCD {
                 let field = Field32D::parse(value)?;
                 Ok(Field32AmountCD::D(field))
             }
-            None | Some("") => {
-                // No option letter given: fall back to default parse behavior
+            None => {
+                // No tag information at all (direct API use): fall back to default parse behavior
                 Self::parse(value)
             }
             Some(other) => Err(ParseError::InvalidFormat {
